@@ -102,7 +102,8 @@ class Result:
         self.stats = {}
 
 
-def run_check(prop, streams, argv, level_text='', trusted_base=(), assumptions=(), extra_obligations=None):
+def run_check(prop, streams, argv, level_text='', trusted_base=(), assumptions=(), extra_obligations=None,
+              translated=()):
     t0 = time.time()
     tier = os.environ.get('VERIF_TIER', 'quick')
     replay = None
@@ -124,6 +125,7 @@ def run_check(prop, streams, argv, level_text='', trusted_base=(), assumptions=(
     broken = []           # broken obligations (strings)
     obligations = discharged = 0
     props_info = {}
+    translation_info = {}
 
     # ---- 1. proof obligations
     try:
@@ -141,6 +143,15 @@ def run_check(prop, streams, argv, level_text='', trusted_base=(), assumptions=(
             obligations += o
             discharged += d
             broken.extend(msgs)
+        if translated:
+            # the translator tie: regenerate the Gallina definitions of the listed source modules from the current
+            # source, type-check them and re-check the lemmas equating them with the hand-written model
+            from py2v import run as py2v_run
+            o, d, msgs = py2v_run.obligations(list(translated), core.REPO)
+            obligations += o
+            discharged += d
+            broken.extend(msgs)
+            translation_info = {'modules': list(translated), 'obligations': o, 'discharged': d}
     except core.BuildError as e:
         broken.append('%s: %s' % (e.what, e.log[-1500:]))
         obligations = max(obligations, 1)
@@ -153,6 +164,13 @@ def run_check(prop, streams, argv, level_text='', trusted_base=(), assumptions=(
     total_unmodelled = 0
     disagreements = 0
     model_ok = True
+    # a broken obligation does not by itself show a violation: search harder for a failing input
+    search_tier = 'thorough' if (broken and not replay) else tier
+    if search_tier != tier:
+        core.log('%s: %d broken obligation(s); searching for a failing input at the thorough tier' % (prop, len(broken)))
+        for st in streams:
+            if hasattr(st, '_tier'):
+                st._tier = search_tier
     for st in streams:
         rng = random.Random('%s/%s/%d' % (prop, st.name, seed))
         if replay:
@@ -161,7 +179,7 @@ def run_check(prop, streams, argv, level_text='', trusted_base=(), assumptions=(
                 continue
             cases = [payload['case']]
         else:
-            cases = list(st.corpus()) + list(st.generate(rng, tier))
+            cases = list(st.corpus()) + list(st.generate(rng, search_tier))
         # de-duplicate
         seen = set()
         uniq = []
@@ -287,6 +305,7 @@ def run_check(prop, streams, argv, level_text='', trusted_base=(), assumptions=(
             'correspondence': cov['streams'],
             'disagreements': disagreements,
             'broken_obligations': broken,
+            'translation': translation_info,
             'known_findings_seen': sorted(known_lines),
         },
         'assumptions': list(assumptions),
